@@ -1,1 +1,384 @@
+//! Shared pieces of the fibre_logging monitors: an independent strict JSON reader that keeps
+//! number tokens as text, the "nasty string" generator, and a child-process runner.
 
+pub mod minijson {
+  //! Strict RFC 8259 reader. Numbers are kept as their raw text so that integers and floats can
+  //! be compared exactly (serde_json's default float parser is not correctly rounded).
+
+  #[derive(Debug, Clone, PartialEq)]
+  pub enum J {
+    Null,
+    Bool(bool),
+    Num(String),
+    Str(String),
+    Arr(Vec<J>),
+    Obj(Vec<(String, J)>),
+  }
+
+  impl J {
+    pub fn get(&self, k: &str) -> Option<&J> {
+      match self {
+        J::Obj(v) => v.iter().find(|(n, _)| n == k).map(|(_, x)| x),
+        _ => None,
+      }
+    }
+    pub fn as_str(&self) -> Option<&str> {
+      match self {
+        J::Str(s) => Some(s),
+        _ => None,
+      }
+    }
+  }
+
+  struct P<'a> {
+    b: &'a [u8],
+    i: usize,
+  }
+
+  pub fn parse(s: &str) -> Result<J, String> {
+    let mut p = P { b: s.as_bytes(), i: 0 };
+    p.ws();
+    let v = p.value(0)?;
+    p.ws();
+    if p.i != p.b.len() {
+      return Err(format!("trailing bytes at {}", p.i));
+    }
+    Ok(v)
+  }
+
+  impl<'a> P<'a> {
+    fn ws(&mut self) {
+      while self.i < self.b.len() && matches!(self.b[self.i], b' ' | b'\t' | b'\n' | b'\r') {
+        self.i += 1;
+      }
+    }
+    fn eat(&mut self, lit: &[u8]) -> bool {
+      if self.b[self.i..].starts_with(lit) {
+        self.i += lit.len();
+        true
+      } else {
+        false
+      }
+    }
+    fn value(&mut self, depth: usize) -> Result<J, String> {
+      if depth > 64 {
+        return Err("too deep".into());
+      }
+      if self.i >= self.b.len() {
+        return Err("eof".into());
+      }
+      match self.b[self.i] {
+        b'n' => self.eat(b"null").then_some(J::Null).ok_or_else(|| "bad literal".to_string()),
+        b't' => self.eat(b"true").then_some(J::Bool(true)).ok_or_else(|| "bad literal".to_string()),
+        b'f' => self.eat(b"false").then_some(J::Bool(false)).ok_or_else(|| "bad literal".to_string()),
+        b'"' => Ok(J::Str(self.string()?)),
+        b'[' => {
+          self.i += 1;
+          let mut v = Vec::new();
+          self.ws();
+          if self.i < self.b.len() && self.b[self.i] == b']' {
+            self.i += 1;
+            return Ok(J::Arr(v));
+          }
+          loop {
+            self.ws();
+            v.push(self.value(depth + 1)?);
+            self.ws();
+            match self.b.get(self.i) {
+              Some(b',') => self.i += 1,
+              Some(b']') => {
+                self.i += 1;
+                return Ok(J::Arr(v));
+              }
+              _ => return Err(format!("expected , or ] at {}", self.i)),
+            }
+          }
+        }
+        b'{' => {
+          self.i += 1;
+          let mut v = Vec::new();
+          self.ws();
+          if self.i < self.b.len() && self.b[self.i] == b'}' {
+            self.i += 1;
+            return Ok(J::Obj(v));
+          }
+          loop {
+            self.ws();
+            if self.b.get(self.i) != Some(&b'"') {
+              return Err(format!("expected key at {}", self.i));
+            }
+            let k = self.string()?;
+            self.ws();
+            if self.b.get(self.i) != Some(&b':') {
+              return Err(format!("expected : at {}", self.i));
+            }
+            self.i += 1;
+            self.ws();
+            let x = self.value(depth + 1)?;
+            v.push((k, x));
+            self.ws();
+            match self.b.get(self.i) {
+              Some(b',') => self.i += 1,
+              Some(b'}') => {
+                self.i += 1;
+                return Ok(J::Obj(v));
+              }
+              _ => return Err(format!("expected , or }} at {}", self.i)),
+            }
+          }
+        }
+        b'-' | b'0'..=b'9' => self.number(),
+        c => Err(format!("unexpected byte {:#x} at {}", c, self.i)),
+      }
+    }
+    fn number(&mut self) -> Result<J, String> {
+      let st = self.i;
+      if self.b[self.i] == b'-' {
+        self.i += 1;
+      }
+      match self.b.get(self.i) {
+        Some(b'0') => self.i += 1,
+        Some(b'1'..=b'9') => {
+          while matches!(self.b.get(self.i), Some(b'0'..=b'9')) {
+            self.i += 1;
+          }
+        }
+        _ => return Err(format!("bad number at {}", st)),
+      }
+      if self.b.get(self.i) == Some(&b'.') {
+        self.i += 1;
+        if !matches!(self.b.get(self.i), Some(b'0'..=b'9')) {
+          return Err(format!("bad fraction at {}", st));
+        }
+        while matches!(self.b.get(self.i), Some(b'0'..=b'9')) {
+          self.i += 1;
+        }
+      }
+      if matches!(self.b.get(self.i), Some(b'e' | b'E')) {
+        self.i += 1;
+        if matches!(self.b.get(self.i), Some(b'+' | b'-')) {
+          self.i += 1;
+        }
+        if !matches!(self.b.get(self.i), Some(b'0'..=b'9')) {
+          return Err(format!("bad exponent at {}", st));
+        }
+        while matches!(self.b.get(self.i), Some(b'0'..=b'9')) {
+          self.i += 1;
+        }
+      }
+      Ok(J::Num(String::from_utf8(self.b[st..self.i].to_vec()).unwrap()))
+    }
+    fn hex4(&mut self) -> Result<u32, String> {
+      if self.i + 4 > self.b.len() {
+        return Err("short \\u".into());
+      }
+      let s = std::str::from_utf8(&self.b[self.i..self.i + 4]).map_err(|_| "bad \\u")?;
+      let v = u32::from_str_radix(s, 16).map_err(|_| format!("bad \\u{}", s))?;
+      self.i += 4;
+      Ok(v)
+    }
+    fn string(&mut self) -> Result<String, String> {
+      // precondition: at '"'
+      self.i += 1;
+      let mut out: Vec<u8> = Vec::new();
+      loop {
+        let Some(&c) = self.b.get(self.i) else { return Err("eof in string".into()) };
+        match c {
+          b'"' => {
+            self.i += 1;
+            return String::from_utf8(out).map_err(|_| "invalid utf-8 in string".to_string());
+          }
+          b'\\' => {
+            self.i += 1;
+            let Some(&e) = self.b.get(self.i) else { return Err("eof in escape".into()) };
+            self.i += 1;
+            match e {
+              b'"' => out.push(b'"'),
+              b'\\' => out.push(b'\\'),
+              b'/' => out.push(b'/'),
+              b'b' => out.push(8),
+              b'f' => out.push(12),
+              b'n' => out.push(b'\n'),
+              b'r' => out.push(b'\r'),
+              b't' => out.push(b'\t'),
+              b'u' => {
+                let mut cp = self.hex4()?;
+                if (0xD800..0xDC00).contains(&cp) {
+                  if !(self.b.get(self.i) == Some(&b'\\') && self.b.get(self.i + 1) == Some(&b'u')) {
+                    return Err("lone high surrogate".into());
+                  }
+                  self.i += 2;
+                  let lo = self.hex4()?;
+                  if !(0xDC00..0xE000).contains(&lo) {
+                    return Err("bad low surrogate".into());
+                  }
+                  cp = 0x10000 + ((cp - 0xD800) << 10) + (lo - 0xDC00);
+                } else if (0xDC00..0xE000).contains(&cp) {
+                  return Err("lone low surrogate".into());
+                }
+                let ch = char::from_u32(cp).ok_or("bad code point")?;
+                let mut buf = [0u8; 4];
+                out.extend_from_slice(ch.encode_utf8(&mut buf).as_bytes());
+              }
+              x => return Err(format!("bad escape \\{}", x as char)),
+            }
+          }
+          0..=0x1f => return Err(format!("raw control byte {:#x} in string", c)),
+          _ => {
+            out.push(c);
+            self.i += 1;
+          }
+        }
+      }
+    }
+  }
+}
+
+pub mod strgen {
+  use vh_core::rng::Rng;
+
+  const SPECIAL: &[&str] = &[
+    "\"", "'", "\\", "\\\\", "\\n", "\\u0000", "\n", "\r", "\r\n", "\t", "\0", "\u{1}", "\u{7}", "\u{8}", "\u{b}", "\u{c}", "\u{1b}", "\u{1f}",
+    "\u{7f}", "\u{80}", "\u{85}", "\u{9f}", "\u{a0}", "\u{2028}", "\u{2029}", "\u{feff}", "\u{fffd}", "\u{fffe}", "\u{ffff}", "\u{d7ff}",
+    "\u{e000}", "\u{10000}", "\u{1f600}", "\u{10ffff}", "e\u{301}", "\u{202e}", "\u{200b}", "\u{e4}\u{f6}\u{fc}", "\u{65e5}\u{672c}\u{8a9e}",
+    "{", "}", "[", "]", ":", ",", "%", "%%", "%m", "%n", "%-5p", "{}", "\",\"x\":\"", "}\n{", "null", "NaN", "</script>", " ", "  ",
+  ];
+
+  /// A string mixing plain ASCII with quotes, backslashes, control characters, line and
+  /// paragraph separators and non-BMP characters.
+  pub fn nasty(rng: &mut Rng) -> String {
+    match rng.below(40) {
+      0 => return String::new(),
+      1 => return long(rng),
+      2 => return (*rng.pick(SPECIAL)).to_string(),
+      _ => {}
+    }
+    let n = rng.range(1, 24);
+    let mut s = String::new();
+    for _ in 0..n {
+      match rng.below(10) {
+        0..=3 => {
+          let k = rng.range(1, 6);
+          for _ in 0..k {
+            s.push((b' ' + rng.below(95) as u8) as char);
+          }
+        }
+        4..=7 => s.push_str(rng.pick(SPECIAL)),
+        8 => {
+          // arbitrary scalar value
+          let cp = loop {
+            let c = match rng.below(4) {
+              0 => rng.below(0x80),
+              1 => rng.below(0x800),
+              2 => rng.below(0x10000),
+              _ => rng.below(0x110000),
+            } as u32;
+            if let Some(ch) = char::from_u32(c) {
+              break ch;
+            }
+          };
+          s.push(cp);
+        }
+        _ => s.push((rng.below(0x20) as u8) as char),
+      }
+    }
+    s
+  }
+
+  /// 64 KiB and more.
+  pub fn long(rng: &mut Rng) -> String {
+    let unit = nasty_short(rng);
+    let mut s = String::with_capacity(70_000);
+    while s.len() < 65_536 {
+      s.push_str(&unit);
+      s.push('x');
+    }
+    s
+  }
+
+  fn nasty_short(rng: &mut Rng) -> String {
+    let mut s = String::new();
+    for _ in 0..rng.range(1, 5) {
+      s.push_str(rng.pick(SPECIAL));
+    }
+    s
+  }
+
+  pub fn plain(rng: &mut Rng, lo: u64, hi: u64) -> String {
+    let n = rng.range(lo, hi);
+    (0..n).map(|_| (b'a' + rng.below(26) as u8) as char).collect()
+  }
+}
+
+pub mod proc {
+  use std::io::Read;
+  use std::process::{Command, Stdio};
+  use std::time::{Duration, Instant};
+
+  #[derive(Debug)]
+  pub enum Ending {
+    Exited(i32),
+    Signaled(i32),
+    Timeout,
+    SpawnFailed(String),
+  }
+
+  pub struct Outcome {
+    pub ending: Ending,
+    pub stdout: String,
+    pub stderr: String,
+    pub wall_ms: u64,
+  }
+
+  /// Runs the child with piped output; kills it after `watchdog` (=> `Timeout`, which callers
+  /// must treat as inconclusive).
+  pub fn run(mut cmd: Command, watchdog: Duration) -> Outcome {
+    let t0 = Instant::now();
+    cmd.stdin(Stdio::null()).stdout(Stdio::piped()).stderr(Stdio::piped());
+    let mut child = match cmd.spawn() {
+      Ok(c) => c,
+      Err(e) => return Outcome { ending: Ending::SpawnFailed(e.to_string()), stdout: String::new(), stderr: String::new(), wall_ms: 0 },
+    };
+    let mut so = child.stdout.take().unwrap();
+    let mut se = child.stderr.take().unwrap();
+    let h1 = std::thread::spawn(move || {
+      let mut b = Vec::new();
+      let _ = so.read_to_end(&mut b);
+      String::from_utf8_lossy(&b).into_owned()
+    });
+    let h2 = std::thread::spawn(move || {
+      let mut b = Vec::new();
+      let _ = se.read_to_end(&mut b);
+      String::from_utf8_lossy(&b).into_owned()
+    });
+    let mut naps = 0u64;
+    let ending = loop {
+      match child.try_wait() {
+        Ok(Some(st)) => {
+          use std::os::unix::process::ExitStatusExt;
+          break match (st.code(), st.signal()) {
+            (Some(c), _) => Ending::Exited(c),
+            (None, Some(s)) => Ending::Signaled(s),
+            _ => Ending::Exited(-1),
+          };
+        }
+        Ok(None) => {}
+        Err(_) => {
+          let _ = child.kill();
+          let _ = child.wait();
+          break Ending::Timeout;
+        }
+      }
+      if t0.elapsed() >= watchdog {
+        let _ = child.kill();
+        let _ = child.wait();
+        break Ending::Timeout;
+      }
+      naps += 1;
+      std::thread::sleep(Duration::from_micros(if naps < 400 { 250 } else { 2000 }));
+    };
+    let stdout = h1.join().unwrap_or_default();
+    let stderr = h2.join().unwrap_or_default();
+    Outcome { ending, stdout, stderr, wall_ms: t0.elapsed().as_millis() as u64 }
+  }
+}
